@@ -492,11 +492,78 @@ class _Inliner:
         return False
 
 
+def _flag_test(e: ast.AST) -> Optional[str]:
+    """name when e is `<name> is not None` / `<name> is not <literal>` / `<name>` / `<name> != <literal>`: a pure test of one local"""
+    if isinstance(e, ast.Name):
+        return e.id
+    if isinstance(e, ast.Compare) and len(e.ops) == 1 and isinstance(e.ops[0], (ast.IsNot, ast.NotEq)) and isinstance(e.left, ast.Name) \
+            and isinstance(e.comparators[0], ast.Constant):
+        return e.left.id
+    return None
+
+
+def _sink_raises(tree: ast.Module, log: List[str], path: str) -> None:
+    """`while ...: ...; break` followed at once by `if <flag test>: ... raise ...`: the guarded raising block is copied in
+    front of every `break` of the loop (nothing runs between a break and the statement after the loop, and the test of one
+    local is pure, so this is exact); the copy after the loop stays for the exit through the loop condition.  A stop
+    reported after the loop then reads like one reported inside it."""
+    class V(ast.NodeTransformer):
+        def _block(self, stmts):
+            out = []
+            for i, st in enumerate(stmts):
+                st = self.visit(st)
+                nxt = stmts[i + 1] if i + 1 < len(stmts) else None
+                if isinstance(st, ast.While) and not st.orelse and isinstance(nxt, ast.If) and not nxt.orelse \
+                        and _flag_test(nxt.test) is not None and nxt.body and isinstance(nxt.body[-1], ast.Raise) \
+                        and not any(isinstance(x, (ast.Break, ast.Continue, ast.Return, ast.Yield, ast.YieldFrom, ast.Await))
+                                    for b_ in nxt.body for x in ast.walk(b_)):
+                    flag = _flag_test(nxt.test)
+                    assigned_in_loop = any(isinstance(x, ast.Name) and x.id == flag and isinstance(x.ctx, ast.Store) for x in ast.walk(st))
+                    n_breaks = [0]
+
+                    def sink(block):
+                        res = []
+                        for s_ in block:
+                            if isinstance(s_, ast.Break):
+                                res.append(copy.deepcopy(nxt))
+                                n_breaks[0] += 1
+                            elif isinstance(s_, (ast.If, ast.Try, ast.With)):
+                                for fld in ('body', 'orelse', 'finalbody'):
+                                    sub = getattr(s_, fld, None)
+                                    if isinstance(sub, list) and sub and isinstance(sub[0], ast.stmt):
+                                        setattr(s_, fld, sink(sub))
+                                if isinstance(s_, ast.Try):
+                                    for hd in s_.handlers:
+                                        hd.body = sink(hd.body)
+                            res.append(s_)
+                        return res
+                    if assigned_in_loop:
+                        st.body = sink(st.body)
+                        if n_breaks[0]:
+                            log.append(f'{path}:{st.lineno} raising block after the loop copied in front of {n_breaks[0]} break(s)')
+                out.append(st)
+            return out
+
+        def generic_visit(self, node):
+            for fld in ('body', 'orelse', 'finalbody'):
+                sub = getattr(node, fld, None)
+                if isinstance(sub, list) and sub and isinstance(sub[0], ast.stmt):
+                    setattr(node, fld, self._block(sub))
+            if isinstance(node, ast.Try):
+                for hd in node.handlers:
+                    hd.body = self._block(hd.body)
+            return node
+    V().visit(tree)
+    ast.fix_missing_locations(tree)
+
+
 def normalise(tree: ast.Module, path: str) -> Tuple[ast.Module, List[str]]:
     if not KNOWN or not path.endswith('.py'):
         return tree, []
     inl = _Inliner(tree, path)
     try:
-        return inl.run(), inl.log
+        out = inl.run()
+        _sink_raises(out, inl.log, path)
+        return out, inl.log
     except RecursionError:
         return tree, inl.log + [f'{path}: normalisation abandoned (recursion)']
